@@ -3,6 +3,7 @@
 package mpx
 
 import (
+	"sync"
 	"sync/atomic"
 
 	"github.com/basecomplextech/baselibrary/bin"
@@ -26,5 +27,21 @@ func SetVerifTracer(f VerifTracer) {
 func vtr(event string, id bin.Bin128, a, b int64) {
 	if f := verifTracer.Load(); f != nil {
 		(*f)(event, id, a, b)
+	}
+}
+
+// channel ids by channel object: a released channel has no state to read its id from
+var verifIDs sync.Map // *channel -> bin.Bin128
+
+func vnew(ch *channel, id bin.Bin128) { verifIDs.Store(ch, id) }
+
+// vtrc traces a point of a channel object without touching its reference count.
+func vtrc(event string, ch *channel) {
+	if f := verifTracer.Load(); f != nil {
+		var id bin.Bin128
+		if v, ok := verifIDs.Load(ch); ok {
+			id = v.(bin.Bin128)
+		}
+		(*f)(event, id, int64(ch.refs.Load()), 0)
 	}
 }
